@@ -4,9 +4,11 @@ import (
 	"bufio"
 	"fmt"
 	"io"
+	"os"
 	"os/exec"
 	"strings"
 	"sync"
+	"sync/atomic"
 	"time"
 )
 
@@ -177,6 +179,7 @@ type Session struct {
 	Errors   []string
 	asserted int
 	pending  strings.Builder
+	script   strings.Builder
 }
 
 func NewSession(p *Proc, b *Builder) *Session {
@@ -249,8 +252,25 @@ func (s *Session) Assert(t *Term) {
 
 func (s *Session) flush() {
 	s.syncConsts()
+	if dumpSlow {
+		s.script.WriteString(s.pending.String())
+	}
 	s.P.send(s.pending.String())
 	s.pending.Reset()
+}
+
+var dumpSlow = os.Getenv("GOSYM_DUMP_SLOW") != ""
+var dumpN int32
+
+func (s *Session) maybeDump(d time.Duration, r Result) {
+	if !dumpSlow || d < 4*time.Second {
+		return
+	}
+	n := atomic.AddInt32(&dumpN, 1)
+	if n > 20 {
+		return
+	}
+	os.WriteFile(fmt.Sprintf("/tmp/slowq-%d-%s.smt2", n, r), []byte(s.script.String()), 0o644)
 }
 
 // Check decides satisfiability of (asserted set) and extra.
@@ -269,6 +289,10 @@ func (s *Session) Check(extra ...*Term) Result {
 	r := s.readVerdict()
 	if s.P.Stats != nil {
 		s.P.Stats.add(s.P.Kind, r, time.Since(t0))
+	}
+	s.maybeDump(time.Since(t0), r)
+	if dumpSlow {
+		s.script.WriteString("(pop 1)\n")
 	}
 	s.P.send("(pop 1)\n")
 	return r
@@ -311,6 +335,10 @@ func (s *Session) CheckModel(extra []*Term, eval []*Term) (Result, map[int]strin
 			}
 			vals[t.ID] = parseGetValue(resp)
 		}
+	}
+	s.maybeDump(time.Since(t0), r)
+	if dumpSlow {
+		s.script.WriteString("(pop 1)\n")
 	}
 	s.P.send("(pop 1)\n")
 	return r, vals
